@@ -86,6 +86,30 @@ static void part_lzma(int thorough) {
 }
 
 // ---- .lz -------------------------------------------------------------------------------------------------------
+// .lzma dictionary sizes that are not multiples of 16 (legal for lzma_alone_decoder) with more output than one dictionary and
+// matches whose distances lie in the top bytes of the dictionary: what the decoder allocates and what it accepts must follow the header exactly
+static void part_lzma_odd_dict(void) {
+	static const uint32_t OD[] = { 4097, 4100, 4104, 4111, 5001, 5002, 6000, 8191 };
+	static uint8_t big[40000], bigout[40000];
+	for (unsigned di = 0; di < sizeof OD / sizeof OD[0]; di++) for (int gap = 0; gap < 3; gap++) { if ((di * 3 + (unsigned)gap) % (unsigned)nsh != (unsigned)sh) continue;
+		uint32_t D = OD[di]; size_t period = D - (size_t)gap, n = 4 * (size_t)D + 100; if (n > sizeof big) n = sizeof big; uint32_t x = 77 + di;
+		for (size_t i = 0; i < n; i++) { if (i < period) { x = x * 1664525u + 1013904223u; big[i] = (uint8_t)(x >> 24); } else big[i] = big[i - period]; }	// every match has distance D - gap
+		// explicit packets: `period` literals, then matches of 200 bytes at distance `period` (the reference greedy encoder only looks 600 bytes back)
+		static ref_packet pk[9000]; int np = 0; for (size_t i = 0; i < period; i++) pk[np++] = (ref_packet){ RP_LIT, big[i], 0 }; for (size_t i = period; i < n; ) { size_t l = n - i < 200 ? n - i : 200; if (l < 2) { pk[np++] = (ref_packet){ RP_LIT, big[i], 0 }; i++; continue; } pk[np++] = (ref_packet){ RP_MATCH, (uint32_t)(period - 1), (uint32_t)l }; i += l; }
+		pk[np++] = (ref_packet){ RP_EOPM, 0, 0 };
+		static uint8_t pplain[40000], pcomp[60000]; size_t ppl = 0; int pvalid = 0, peopm = 0, pinv = -1; size_t cl = ref_lzma_encode_packets(3, 0, 2, pk, np, D, pplain, sizeof pplain, &ppl, pcomp, sizeof pcomp, &pvalid, &peopm, &pinv);
+		rb_out o; rb_init(&o, file, sizeof file); rb_byte(&o, 93, T_LZMA_PROPS); rb_le32(&o, D, T_LZMA_DICT); rb_le64(&o, n, T_LZMA_SIZE); rb_put(&o, pcomp, cl, T_LZMA_DATA);
+		if (!pvalid || ppl != n || memcmp(pplain, big, n) || o.overflow) { FAILC("reference-selfcheck", "packet encoder: valid=%d len=%zu/%zu", pvalid, ppl, n); continue; }
+		snprintf(desc, sizeof desc, ".lzma dict=%u (not a multiple of 16), %zu bytes, matches at distance %zu", D, n, period); H_CASE("c16 %s", desc); n_files++;
+		{ size_t ol = 0, cons = 0; static uint8_t ro[40000]; int rr = ref_alone_decode(file, o.len, ro, sizeof ro, &ol, &cons); if (rr != REF_OK || ol != n || memcmp(ro, big, n)) { FAILC("reference-selfcheck", "reference decoder rejects its own encoding (%d)", rr); continue; } }
+		for (int chunk = 0; chunk < 3; chunk++) { lzma_stream s = LZMA_STREAM_INIT; if (lzma_alone_decoder(&s, MEMLIMIT) != LZMA_OK) continue; size_t pos = 0, step = chunk == 0 ? o.len : chunk == 1 ? 1 : 4099; s.next_out = bigout; s.avail_out = sizeof bigout; lzma_ret r = LZMA_OK;
+			while (r == LZMA_OK) { if (s.avail_in == 0 && pos < o.len) { size_t g = o.len - pos < step ? o.len - pos : step; s.next_in = file + pos; s.avail_in = g; pos += g; } r = lzma_code(&s, pos == o.len ? LZMA_FINISH : LZMA_RUN); }
+			n_cmp++; if (r != LZMA_STREAM_END || s.total_out != n || memcmp(bigout, big, n)) FAILC("lzma:odd-dictionary", "lzma_alone_decoder returned %d with %llu of %zu bytes (input in pieces of %zu)", r, (unsigned long long)s.total_out, n, step);
+			lzma_end(&s); }
+		// one byte farther than the dictionary reaches: must be rejected
+		// (distances beyond the declared size are not tested for rejection: lz_decoder.c documents that the exact size is not enforced)
+	}
+}
 static void part_lz(int thorough) {
 	static const char *trail[] = { "", "x", "L", "LZ", "LZI", "LZIP\x02", "\0\0\0\0" }; static const size_t tl[] = { 0, 1, 1, 2, 3, 5, 4 };
 	static const uint32_t FL[] = { 0, LZMA_CONCATENATED, LZMA_TELL_ANY_CHECK, LZMA_CONCATENATED | LZMA_TELL_ANY_CHECK, LZMA_IGNORE_CHECK, LZMA_CONCATENATED | LZMA_IGNORE_CHECK | LZMA_TELL_NO_CHECK | LZMA_TELL_UNSUPPORTED_CHECK };
@@ -161,7 +185,7 @@ static void part_reuse(void) {
 int main(int argc, char **argv) {
 	h_init(); h_watchdog(5, 12);	/* 60 s of CPU inside one element = the call under test does not return */ if (argc < 5) return 2; int thorough = !strcmp(argv[2], "thorough"); sh = atoi(argv[3]); nsh = atoi(argv[4]);
 	for (size_t i = 0; i < sizeof plain; i++) plain[i] = "abcabcabd-xyz"[i % 13] ^ (uint8_t)(i / 40);
-	if (!strcmp(argv[1], "lzma")) part_lzma(thorough); else if (!strcmp(argv[1], "lz")) part_lz(thorough); else if (!strcmp(argv[1], "xz")) part_xz(thorough); else if (sh == 0) part_reuse();
+	if (!strcmp(argv[1], "lzma")) { part_lzma(thorough); part_lzma_odd_dict(); } else if (!strcmp(argv[1], "lz")) part_lz(thorough); else if (!strcmp(argv[1], "xz")) part_xz(thorough); else if (sh == 0) part_reuse();
 	printf("STAT evals=%ld distinct=%ld states=%ld transitions=%ld memlimit_skips=%ld\n", n_cmp, n_files, n_files, n_cmp, n_memlimit_skips);
 	if (sh == 0) printf("SAMPLE %s\n", desc);
 	h_done(); return 0;
